@@ -14,8 +14,8 @@ MODULES = ['LLRP.Model.Retry', 'LLRP.Model.GoInt', 'LLRP.Proofs.Retry', 'LLRP.Or
 RULE = ('nextWait: n in -2..70 and 5 extreme n x (base, max) in {0, 1, 1ms, 1s, 1min, 2^62, 2^63-1, 3 random, -1, -2^63, random negative}^2 '
         'without jitter (value compared with the translated function, and judged by the Lean pause monitor for base, max >= 1), with jitter for base >= 0 (each observed value must be feasible for some draw 0 <= s < 2^n, '
         'decided arithmetically by the Lean model). RetryWithCtx: every outcome sequence over {ok, recoverable, fatal} of length <= 6 '
-        'x retries {-5..5 incl. Forever} x KeepErrs {0,1,2,10,-3} on a live context; context ended at entry; context ending '
-        '(Canceled / DeadlineExceeded) at each wait position of every sequence of length <= 4, 3 trials each which must agree; waits of an '
+        'x retries {-5..5 incl. Forever} x KeepErrs {0,1,2,10,-3} on a live context; the wrappers RetrySome and Retry on sequences of length <= 4; context ended at entry; context ending '
+        '(Canceled / DeadlineExceeded) at each wait position of every sequence of length <= 6, 3 trials each which must agree; waits of an '
         'hour cut short by the context; wait-exceeds-deadline at each wait position; elapsed time >= sum of the model waits. '
         'Compared: call count, nil/non-nil, MainErr class, errors.Is against ErrRetriesExceeded/Canceled/DeadlineExceeded/'
         'ErrWaitExceedsDeadline/every operation error, len(Others) and its content, Attempts. '
@@ -27,6 +27,7 @@ ASSUMPTIONS = ['rand.Int63n(k) returns a value in [0, k) (theorems about jitter 
                'nextWait is the go2lean translation of the source',
                'a wait is abstracted to one of: timer fires first / ctx.Done observed first / deadline check fails; '
                'timer accuracy and the scheduler are runtime behaviour (elapsed >= sum of waits is measured, not proved)',
+               'Retry/RetrySome only wrap RetryWithCtx in a context cancelled by SIGINT/SIGTERM; they are exercised without signals',
                'Attempts saturation at MaxInt and the attempt counter overflow under Forever need 2^63 calls and are modelled but not exercised']
 TRUSTED = ['go2lean subset semantics (LLRP.Model.GoInt)', 'Go runtime: timers, select, context, math/rand']
 
